@@ -17,6 +17,9 @@ CLAIMS = {
 
  "C05": ("Structural necessary conditions of registry consistency decided on every path and call site: canonical keys only, delete-if-same, no Stream.Close while still registered, idle guard reads every consumer set, Regist retires the previous holder, Get returns only registry entries. Does not decide racing registrations or listings at an instant.",
          "custom SSA path-state + dependence + who-may-call analysis", "DESIGN.md §3 C05"),
+
+ "C06": ("Structural necessary conditions of exact depacketisation decided on every path of the FU and aggregation handlers (sibling rules for H.264/H.265): guarded fragment append, sequence-gap reset, emission only at the end bit with cleared state, aggregated units copied verbatim after a size check, one RTP timestamp per packet. Does not decide byte equality or timestamp arithmetic.",
+         "custom SSA path-state (typestate) + sibling-agreement analysis", "DESIGN.md §3 C06"),
 }
 NA = {
  "C16": "pure input/output language equivalence of the pattern matcher over all pattern/path pairs: truth lives in string values, no structural clause implies it; deciding it needs exhaustive evaluation (execution), a different technique family",
